@@ -16,14 +16,55 @@ def jobs(pid, tier, seed):
     out = []
     for name, params in scenarios.directed_for(pid, tier):
         out.append({"kind": "directed", "name": name, "params": params})
+    out += [{"kind": "dirdiff", "i": i} for i in range(len(dirdiff_histories()))]
     n = 900 if tier == "quick" else 20000
     out += [{"kind": "diff", "seed": seed * 1000003 + i} for i in range(n)]
     return out
 
 
+_dd = []
+
+
+def dirdiff_histories():
+    """Directed differential histories: the numeric name space is full across apps but not within one."""
+    if _dd:
+        return _dd
+    from ..scenarios import HB
+    for level in (1, 2):
+        lo, hi = (1, 9) if level == 1 else (10, 99)
+        for split in ((3, 5, 8) if level == 1 else (40,)):
+            for own in (0, 2):
+                b = HB()
+                if level == 2:
+                    for app in ("app", "app2", "äpp"):
+                        for i in range(1, 10):
+                            c = b.conn(app, "s1")
+                            b.send(c, type="claim", nameplate=str(i))
+                for i in range(lo, hi + 1):
+                    app = "app" if i - lo < split else "app2"
+                    c = b.conn(app, "s1")
+                    b.send(c, type="claim", nameplate=str(i))
+                for j in range(own):
+                    c = b.conn("äpp", "s1")
+                    b.send(c, type="claim", nameplate=str(lo + j))
+                for j in range(3):
+                    c = b.conn("äpp", "s2")
+                    b.send(c, type="allocate")
+                    b.send(c, type="list")
+                    c2 = b.conn("app", "s2")
+                    b.send(c2, type="allocate")
+                _dd.append((b.h, ["app", "app2", "äpp"]))
+    return _dd
+
+
 def gen_hist(s):
     napps = 2 + (s % 3 == 0)
-    g = Gen(s, napps=napps, nsides=3, steps=70, p_illegal=0.05, names=["1", "2", "7", "x"], body_prefix="same")
+    if s % 4 == 1:
+        # dense profile: the numeric name space fills up across apps (allocation must not look at other apps)
+        g = Gen(s, napps=napps, nsides=3, steps=120, p_illegal=0.02, names=[str(i) for i in range(1, 10)], body_prefix="same",
+                restarts=False, long_advances=False, max_conns=12)
+    else:
+        g = Gen(s, napps=napps, nsides=3, steps=70, p_illegal=0.05, names=["1", "2", "7", "x"], body_prefix="same")
     # identical bodies in all apps: the body counter is global, so make bodies collide on purpose
     h = g.gen()
     k = 0
@@ -57,9 +98,14 @@ def run_job(pid, job, acc):
         for case, hist, cfg, opts in scenarios.build(pid, job["name"], job["params"]):
             run_hist(acc, hist, cfg, 0, case, nontrivial_keys=KEYS, keep_sample=(len(acc.samples) < 1), **opts)
         return
-    s = job["seed"]
-    hist, apps = gen_hist(s)
-    cfg = cfg_for(s)
+    if job["kind"] == "dirdiff":
+        hist, apps = dirdiff_histories()[job["i"]]
+        s = 0
+        cfg = Config(usage=bool(job["i"] % 2), allow_list=bool(job["i"] % 3))
+    else:
+        s = job["seed"]
+        hist, apps = gen_hist(s)
+        cfg = cfg_for(s)
     # the direct form, online
     run_hist(acc, hist, cfg, s, "direct:%d" % s, nontrivial_keys=KEYS, quiesce=False)
     capps = diff.conn_apps(hist)
@@ -85,7 +131,7 @@ def run_job(pid, job, acc):
             if diff.first_difference(full, again):
                 acc.errors.append("self-check failed (uncontrolled nondeterminism) seed %d" % s)
                 return
-            acc.add_violation({"property": "C06", "kind": "diff", "cfg": cfg.to_json(), "seed": s, "case": "diff:%d:%s" % (s, app),
+            acc.add_violation({"property": "C06", "kind": "diff", "cfg": cfg.to_json(), "seed": s, "case": "%s:%d:%s" % (job["kind"], job.get("seed", job.get("i", 0)), app),
                                "history": hist, "app": app,
                                "violation": {"props": ["C06"], "kind": "app's observations differ when other apps are removed",
                                              "detail": {"app": app, "first_difference": d}, "step": None}})
@@ -98,7 +144,7 @@ def run_job(pid, job, acc):
 def replay(pid, rep):
     if rep.get("kind") == "diff":
         acc = Acc(pid)
-        s = int(rep["case"].split(":")[1])
-        run_job(pid, {"kind": "diff", "seed": s}, acc)
+        k, s = rep["case"].split(":")[0], int(rep["case"].split(":")[1])
+        run_job(pid, {"kind": "diff", "seed": s} if k == "diff" else {"kind": "dirdiff", "i": s}, acc)
         return acc
     return replay_history(rep, pid)
